@@ -49,8 +49,10 @@ def write(root, mon, prop, tier, seed, tot, wall, *, known, new, inconclusive, j
         "wall_s": round(float(wall), 2),
         "violations": int(new),
     }
-    os.makedirs(os.path.join(root, "evidence"), exist_ok=True)
-    path = os.path.join(root, "evidence", f"{prop}.json")
+    # runs against a scratch copy of the repository (mutation self-tests, seeded changes) must not overwrite the real evidence
+    evdir = os.environ.get("VERIF_EVIDENCE_DIR") or (os.path.join(root, "evidence") if os.path.realpath(repo) == "/repo" else os.path.join(root, ".work", "evidence-scratch"))
+    os.makedirs(evdir, exist_ok=True)
+    path = os.path.join(evdir, f"{prop}.json")
     tmp = path + ".tmp"
     with open(tmp, "w") as fh:
         json.dump(doc, fh, indent=1, sort_keys=True)
